@@ -2,6 +2,7 @@
 //! the normal CLI unless argv[1] == "verif-harness") as a subprocess and records
 //! what is observable at the CLI boundary: stdout, stderr, exit status, signal.
 
+use std::os::unix::fs::OpenOptionsExt;
 use std::io::{Read, Write};
 use std::os::unix::process::ExitStatusExt;
 use std::path::Path;
@@ -288,6 +289,46 @@ pub fn run_slow_drain(spec: Spec, chunk: usize, pause: Duration) -> CliRun {
         None => (None, None),
     };
     CliRun { stdout: out, stderr, code, signal: if timed_out { None } else { signal }, timed_out, spawn_error: None }
+}
+
+/// Run `fml <pre…> PATH <post…>` where PATH names something that is not a regular file and delivers `data`:
+/// kind 0 = /dev/stdin with a pipe behind it, 1 = a named pipe fed by a writer thread, 2 = /proc/self/fd/0.
+pub fn run_input_not_a_file(kind: usize, pre: &[&str], data: &[u8], post: &[&str], dir: &Path, tag: &str) -> Option<CliRun> {
+    match kind % 3 {
+        0 | 2 => {
+            let path = if kind % 3 == 0 { "/dev/stdin" } else { "/proc/self/fd/0" };
+            let mut args: Vec<&str> = pre.to_vec();
+            args.push(path);
+            args.extend_from_slice(post);
+            Some(run(Spec::new(&args).stdin(data)))
+        }
+        _ => {
+            let fifo = dir.join(format!("{}.fifo", tag));
+            let _ = std::fs::remove_file(&fifo);
+            if !Command::new("mkfifo").arg(&fifo).status().map(|s| s.success()).unwrap_or(false) {
+                return None;
+            }
+            let fp = fifo.clone();
+            let owned = data.to_vec();
+            // the writer blocks in open() until the child opens the pipe for reading; if the child never does,
+            // a second opener below releases it
+            let writer = std::thread::spawn(move || {
+                if let Ok(mut w) = std::fs::OpenOptions::new().write(true).open(&fp) {
+                    let _ = w.write_all(&owned);
+                }
+            });
+            let mut args: Vec<&str> = pre.to_vec();
+            let fs = fifo.to_str()?.to_string();
+            args.push(&fs);
+            args.extend_from_slice(post);
+            let r = run(Spec::new(&args));
+            // release a writer that is still waiting for a reader
+            let _ = std::fs::OpenOptions::new().read(true).custom_flags(0o4000).open(&fifo);
+            let _ = writer.join();
+            let _ = std::fs::remove_file(&fifo);
+            Some(r)
+        }
+    }
 }
 
 /// Run with stdout on a pipe whose reader takes `after` bytes and then closes its end.
